@@ -3,7 +3,7 @@ sys.path.insert(0, '/verif')
 from vlib import runner
 from contracts import build_world
 w = build_world()
-names = [n for n, c in w.contracts.items() if not c.abstract]
+names = [n for n, c in w.contracts.items() if not c.abstract and c.serves]
 t = time.time()
 res = runner.verify_many(names, 30000)
 for r in res:
